@@ -223,3 +223,10 @@ def run(ctx):
     r11_3(ctx)
     from .c08 import r08_1
     r08_1(ctx, rid="R11.4")
+    # a rule reported twice (in an order that depends on hashing) is applied twice: the duplicate-free union of C01
+    try:
+        from . import layers as LY
+        from .c01 import r01_7
+        r01_7(ctx, LY.discover(ctx.facts), rid="R11.5")
+    except MissingAnchor as e:
+        ctx.run_rule("R11.5", "duplicate-free union of buckets", lambda r: r.missing(str(e)), floor=1)
